@@ -7,6 +7,7 @@ import "strconv"
 func init() {
 	vHarnesses["VerifC09Render"] = VerifC09Render
 	vHarnesses["VerifC09Refuse"] = VerifC09Refuse
+	vHarnesses["VerifC09Long"] = VerifC09Long
 	vHarnesses["VerifC09Canary"] = VerifC09Canary
 }
 
@@ -97,6 +98,52 @@ func VerifC09Render() {
 		}
 	}
 	vCover("c09.render")
+}
+
+// vLongPair: two arrays sharing a prefix of K (7..10) fixed strings followed by up to N numbers
+// each, so that hunk and context indices cross from one decimal digit to two.
+func vLongPair(n int) (jsonArray, jsonArray) {
+	k := 7 + vChoice(4)
+	a, b := jsonArray{}, jsonArray{}
+	for i := 0; i < k; i++ {
+		s := jsonString("p" + strconv.Itoa(i))
+		a, b = append(a, s), append(b, s)
+	}
+	a = append(a, vNumArray(n)...)
+	b = append(b, vNumArray(n)...)
+	return a, b
+}
+
+// VerifC09Long: the rendering leg on arrays of 7..12 elements (two-digit indices).
+func VerifC09Long() {
+	ca, cb := vLongPair(vParam("N", 2))
+	var a, b JsonNode = ca, cb
+	if vChoice(2) == 1 {
+		a, b = jsonObject{"k": ca}, jsonObject{"k": cb}
+	}
+	if vKnown("hash.alias") {
+		vAssumeNoHashAlias(a, b)
+	}
+	d := a.Diff(b)
+	s, err := d.RenderPatch()
+	vAssert(err == nil, "RenderPatch refused a diff whose paths are expressible as JSON Pointers")
+	vObserve("patch", s)
+	n, err := ReadJsonString(s)
+	vAssert(err == nil, "rendered JSON Patch is not valid JSON")
+	ops, wf := refDecodeOps(n)
+	vAssert(wf, "rendered JSON Patch is not a well-formed RFC 6902 document")
+	r, ok := ref6902(a, ops)
+	vAssert(r != nil && ok, "the rendered JSON Patch does not apply to a under RFC 6902")
+	if r != nil {
+		vAssert(refEq(r, b, modeList, 0), "the rendered JSON Patch applied to a does not give b")
+	}
+	// jd's own reader on its own output (C10, second sentence)
+	d2, err := ReadPatchString(s)
+	vAssert(err == nil, "jd cannot read its own JSON Patch")
+	p, err := vClone(a).Patch(d2)
+	vAssert(err == nil, "jd's own JSON Patch, read back, does not apply to a")
+	vAssert(refEq(p, b, modeList, 0), "jd's own JSON Patch, read back and applied to a, does not give b")
+	vCover("c09.long")
 }
 
 // VerifC09Refuse: paths that cannot be expressed are refused, never mistranslated.
